@@ -31,24 +31,36 @@ IsWs(c) == c \in {" ", "\t"}
 \*  slashline : physical line on which the pending '/' of state SL stands
 \*  cur  : counted physical lines of the current logical line
 \*  first: "none" | "hash" | "other"   first significant character of the logical line
+\*  kw, kwst : the directive name of a logical line that starts with # (letters right after the #, white
+\*         space and comments between # and the name allowed); kwst: "none" | "pre" | "in" | "done"
 Init0 == [st |-> "N", line |-> 1, slashline |-> 0, cur |-> {}, first |-> "none",
-          counted |-> {}, logical |-> <<>>, ok |-> TRUE]
+          counted |-> {}, logical |-> <<>>, ok |-> TRUE, kw |-> "", kwst |-> "none"]
+
+Lower == {"a", "b", "c", "d", "e", "f", "g", "h", "i", "j", "k", "l", "m", "n", "o", "p", "q", "r", "s", "t", "u",
+          "v", "w", "x", "y", "z"}
+KwStep(s, c) ==
+  IF s.first = "none" THEN (IF c = "#" THEN [kw |-> "", kwst |-> "pre"] ELSE [kw |-> "", kwst |-> "done"])
+  ELSE IF s.kwst = "pre" THEN (IF c \in Lower THEN [kw |-> c, kwst |-> "in"] ELSE [kw |-> "", kwst |-> "done"])
+  ELSE IF s.kwst = "in" THEN (IF c \in Lower THEN [kw |-> s.kw \o c, kwst |-> "in"] ELSE [kw |-> s.kw, kwst |-> "done"])
+  ELSE [kw |-> s.kw, kwst |-> s.kwst]
 
 \* first = "hashq": the logical line starts with '#', but if the very next character is another
 \* '#' the token is ## (maximal munch) and the line is NOT a directive
 Mark(s, ln, c) == [s EXCEPT !.cur = s.cur \cup {ln}, !.counted = s.counted \cup {ln},
+                            !.kw = KwStep(s, c).kw, !.kwst = KwStep(s, c).kwst,
                             !.first = IF s.first = "none" THEN (IF c = "#" THEN "hashq" ELSE "other")
                                       ELSE IF s.first = "hashq" THEN (IF c = "#" THEN "other" ELSE "hash")
                                       ELSE s.first]
-Settle(s) == IF s.first = "hashq" THEN [s EXCEPT !.first = "hash"] ELSE s
+Settle(s) == [(IF s.first = "hashq" THEN [s EXCEPT !.first = "hash"] ELSE s) EXCEPT !.kwst = IF s.kwst = "in" THEN "done" ELSE s.kwst]
 
 \* the pending '/' turned out to be an ordinary character: it is code on ITS line
 FlushSlash(s) == [Mark(s, s.slashline, "/") EXCEPT !.st = "N"]
 
 EndLogical(s) ==
   [s EXCEPT !.logical = IF s.cur = {} THEN s.logical
-                        ELSE Append(s.logical, [cat |-> IF s.first \in {"hash", "hashq"} THEN "dir" ELSE "code", lines |-> s.cur]),
-            !.cur = {}, !.first = "none"]
+                        ELSE Append(s.logical, [cat |-> IF s.first \in {"hash", "hashq"} THEN "dir" ELSE "code", lines |-> s.cur,
+                                                 kw |-> IF s.first \in {"hash", "hashq"} THEN s.kw ELSE ""]),
+            !.cur = {}, !.first = "none", !.kw = "", !.kwst = "none"]
 
 \* one character c (not part of a splice); nl handled separately
 RECURSIVE Feed(_, _)
